@@ -327,6 +327,7 @@ Definition check (c : case) : bool :=
                  | Panic => res_eqb (list_eqb page_eqb) Panic r
                  end
           end
+      | Panic => res_eqb (list_eqb page_eqb) Panic r
       | _ => false
       end
   | CPath p c d j1 j2 j3 =>
